@@ -448,13 +448,16 @@ impl<'a> Model<'a> {
                 });
             }
         }
+        if let Ret::Fail = &spec.ret {
+            return Err(Stop::Err("handler always fails".to_string()));
+        }
         if let Ret::Delegate(prog, ctx) = &spec.ret {
             let c = mctx_of(ctx);
             let t = self.parse(prog)?;
             return self.eval_stmts(&t, &c);
         }
         Ok(match &spec.ret {
-            Ret::Delegate(..) => unreachable!(),
+            Ret::Delegate(..) | Ret::Fail => unreachable!(),
             Ret::Marker => {
                 let mut xs = vec![Val::Str(format!("h{}", hid))];
                 xs.extend(args);
